@@ -486,6 +486,10 @@ def run(repo, res, tier):
     dom_get_specializations(repo, res)
     ff_specialized_command(repo, res)
     arms_builtin(repo, res)
+    # the command of the chosen definition is what runs only if the within-word wrapper it is printed in declares its own tables
+    # (otherwise the shared matcher runs whatever the caller's table of that name holds): DECLGUARD, shared with C01 / C04 / C09
+    from vlib import rules_declguard as DG
+    DG.declguard_rule(repo, res, modules=("bash",))
     common.run_traversals(repo, res, only={"check::specialize_nonterminals", "check::resolve_nonterminals"})
     RPL.from_grammar_order(repo, res)
     # the chosen definition is what runs only if it is reached at all (definitions expanded in dependency order, TOPO, shared with C02)
